@@ -467,5 +467,5 @@ func TestVerifC07Jose(t *testing.T) {
 		{name: "jose-jwe-many-recipients", dec: "jose.jwe", build: rep(`{"encrypted_key":"AAAAAAAAAAAAAAAAAAAAAAAAAAAAAAAA"},`, `{"protected":"eyJhbGciOiJBMTI4S1ciLCJlbmMiOiJBMTI4R0NNIn0","iv":"AAAAAAAAAAAAAAAA","ciphertext":"AAAA","tag":"AAAAAAAAAAAAAAAAAAAAAA","recipients":[%s{"encrypted_key":"AAAA"}]}`)},
 		{name: "jose-b64-whitespace", dec: "jose.b64", build: rep("A \n", "%s")},
 	}
-	vC07Drive(t, decs, nil, fams, 400, 15000)
+	vC07Drive(t, decs, nil, fams, 400, 5000)
 }
